@@ -708,3 +708,24 @@ Lemma model_variant_set_m_error_l :
   code_set_m_error false false s (mkmerrx 1 None (Some [XNaN]) None false false) = MPassD /\
   doc_set_m_error s (mkmerrx 1 None (Some [XNaN]) None false false) = CRefused VM1 (Via USAGE).
 Proof. vm_compute. repeat split; reflexivity. Qed.
+
+(* ------------------------------------------------------------------ failures reported in the category that goes with errno *)
+(* as found: every 'if (errno == EINVAL) report(c1) else report(c2)' exit has c1 = VNAERR_USAGE, c2 = VNAERR_SYSTEM *)
+Lemma errno_reports_as_found_l :
+  forallb (fun p => category_eqb (snd (fst p)) USAGE && category_eqb (snd p) SYSTEM) gen_errno_reports = true.
+Proof. vm_compute. reflexivity. Qed.
+
+(* both branches: one call of the error function (none without one), errno on return = errno inside the call = the errno
+   the callee left (EINVAL in the first branch, the system's in the second), on each path through the reporter *)
+Lemma errno_dependent_report_l : forall f c1 c2 p entry clob (einval : bool),
+  In (f, c1, c2) gen_errno_reports ->
+  let cat := if einval then c1 else c2 in
+  let e := if einval then E_INVAL else entry in
+  run_effects (new_errno cat e) cat (path_effects p) clob 0 (mkr e []) =
+  mkr e (match p with PNoErrorFn => [] | _ => [(cat, e)] end).
+Proof.
+  intros f c1 c2 p entry clob einval Hin.
+  pose proof errno_reports_as_found_l as F. rewrite forallb_forall in F. specialize (F _ Hin). simpl in F.
+  apply andb_true_iff in F. destruct F as [F1 F2]. apply category_eqb_eq in F1. apply category_eqb_eq in F2. subst c1 c2.
+  destruct einval; simpl; rewrite run_effects_paths; reflexivity.
+Qed.
